@@ -1,5 +1,6 @@
 import PxModel.Reverse
 import PxModel.DrvParser
+import PxModel.Persist
 /-
   Driver glue for the reverse-proxy model (first token `rev`).
 
@@ -124,6 +125,37 @@ def drv (args : List String) : String :=
           s!"ok td={b01 r.teardown} exc={excStr r.exc} {stStr r.st} rtd={b01 rtd} rclient={hexList s2.client.buffer} " ++
           s!"closes={s3.closes}"
     | _, _, _, _ => "bad-op"
+  -- `rev follow <rewrite> <connect1> <table> <bits1> <picks1> <connect2> <bits2> <picks2> <seg1>… / <seg2>…`:
+  -- a second request on the SAME connection, i.e. a second `handle_request` on the same `ReverseProxy` object
+  -- (the follow-up loop of `HttpWebServerPlugin.on_client_data`), from the state the first request left
+  | "follow" :: rw :: conn1 :: table :: bits1 :: picks1 :: conn2 :: bits2 :: picks2 :: segs =>
+    let segs1 := segs.takeWhile (· != "/")
+    let segs2 := (segs.dropWhile (· != "/")).drop 1
+    match parseTable table, parsePicks picks1, parsePicks picks2, Px.Parser.unhexAll segs1, Px.Parser.unhexAll segs2 with
+    | some t, some pick1, some pick2, some segs1, some segs2 =>
+      match Px.Parser.parseAll {} (Px.Parser.init .request) segs1 with
+      | .error _ => "parse-exc"
+      | .ok req =>
+        if req.state != .complete then "incomplete"
+        else if !isWebRequest req then "notweb"
+        else if (match req.buffer with | some bf => !bf.isEmpty | none => false) then "leftover"
+        else
+          let cfg : Cfg := { rewriteHost := rw == "1" }
+          let r := onRequestCompleteEv cfg false (parseBits bits1) pick1 (conn1 == "ok") t req {}
+          let first := s!"ok td={b01 r.teardown} exc={excStr r.exc} {stStr r.st}"
+          if r.teardown then first ++ " || f none"
+          else if !Px.Persist.isKeepAlive req then first ++ " || f notka"
+          else
+            match Px.Parser.parseAll {} (Px.Parser.init .request) segs2 with
+            | .error _ => first ++ " || f parse-exc"
+            | .ok req2 =>
+              if req2.state != .complete then first ++ " || f incomplete"
+              else if (match req2.buffer with | some bf => !bf.isEmpty | none => false) then first ++ " || f leftover"
+              else
+                let r2 := handleRequest cfg (parseBits bits2) pick2 (conn2 == "ok") t req2 r.st
+                let cs := ",".intercalate (r2.st.connects.map addrStr)
+                first ++ s!" || f exc={excStr r2.exc} connects=[{cs}] wraps={hexList r2.st.wraps} client={hexList r2.st.client.buffer}"
+    | _, _, _, _, _ => "bad-op"
   | _ => "bad-op"
 
 end Px.Reverse
